@@ -14,7 +14,10 @@
    may share IDENTICAL coordinates (still two observations).  Nine named deviations must each
    yield a counterexample: CountBasedCheck (D9), SkipEpochWithoutRow, LoadEveryEngine (D28),
    LoadOnlyOwnTargets, MatchWholeSecond, DedupIgnoresSensor, CrashOnDuplicate, KeepDuplicates,
-   CreateMissingTables.
+   CreateMissingTables; plus FreezeRoster (a sensor joins / leaves an engine after its first import:
+   an observation reaches the filter iff its sensor is in an engine AT THAT EPOCH) and
+   StampCachedEpoch (OutputFaithful: the truth rows written to the OUTPUT database are one per
+   agent and completed step, at that step's epoch, carrying the state held).
 2. impl -> spec: a real realtime run produces a source database; importer databases are DERIVED
    from it with plain sqlite3 (exact copy; supersets with unrelated agents; subsets with a gap
    at a chosen epoch for a chosen registered agent, with and without unrelated extras; epochs
@@ -32,7 +35,10 @@
    MissingEphemerisError was raised, what every engine loaded, the observations handed to every
    EstUpdate job, and the SHA-256 and the schema objects (sqlite_master) of the importer file before
    the run, after the scenario has been built and after the run; TLC validates the traces
-   against TraceImporter.tla and names the formula a rejected trace breaks.
+   against TraceImporter.tla and names the formula a rejected trace breaks.  Roster variants call the
+   public Scenario.addSensor / removeSensor between two steps; after every run the truth rows of the
+   run's output database are read with plain SQL (agent, epoch index of the row's Julian date, importer
+   record the state is bit-equal to) and validated as the trace's Output record.
 """
 from __future__ import annotations
 
@@ -277,6 +283,20 @@ def _run_variant(fam, var, src, workdir):
         tids = tids + [c01.NEW_TARGET_ID]
         born[c01.NEW_TARGET_ID] = fam["add_at"]
         engines[0][2].append(c01.NEW_TARGET_ID)       # the addition event names the first engine
+    # a sensor that joins its engine (Scenario.addSensor) / leaves it (removeSensor) between two steps: the run is built
+    # without it / with it, the importer database comes from a source run in which it existed throughout
+    gone, late = {}, None
+    if var.get("roster"):
+        import copy as _copy
+        what, idx, at = var["roster"]
+        eng_cfg = next(e for e in cfg["engines"] if any(s_["id"] == sids[idx] for s_ in e["sensors"]))
+        late = {"what": what, "id": sids[idx], "at": at, "engine": int(eng_cfg["unique_id"]),
+                "cfg": _copy.deepcopy(next(s_ for s_ in eng_cfg["sensors"] if s_["id"] == sids[idx]))}
+        if what == "add":
+            born[sids[idx]] = at
+            eng_cfg["sensors"] = [s_ for s_ in eng_cfg["sensors"] if s_["id"] != sids[idx]]
+        else:
+            gone[sids[idx]] = at
     imported = (tids if "t" in var["mode"] else []) + (sids if "s" in var["mode"] else [])
     A = lambda i: f"a{i}"  # noqa: E731
     # the observation table only matters when observations are imported
@@ -290,7 +310,8 @@ def _run_variant(fam, var, src, workdir):
               "near": sorted([A(a), j, side] for (a, j, side) in frows if j >= 1),
               "sites": [[A(i), min(n for n, j in enumerate(sids) if sites[j] == sites[i])] for i in sids],
               "engines": [[e, [A(i) for i in ss], [A(i) for i in tt]] for e, ss, tt in engines],
-              "nsteps": fam["nsteps"], "born": [[A(i), born.get(i, 0)] for i in tids + sids]}]
+              "nsteps": fam["nsteps"], "born": [[A(i), born.get(i, 0)] for i in tids + sids],
+              "gone": [[A(i), gone.get(i, fam["nsteps"] + 1)] for i in tids + sids]}]
     state = {"k": 0, "raised": False, "updates": {}}
     orig_import = EphemerisImporter.importEphemerides
     orig_gen = eu.EstUpdateRegistration.generateSubmission
@@ -369,6 +390,12 @@ def _run_variant(fam, var, src, workdir):
         orig_step = app.stepForward
 
         def step():
+            if late and state["k"] + 1 == late["at"]:
+                # public API, between two steps
+                if late["what"] == "add":
+                    app.addSensor(late["cfg"], late["engine"])
+                else:
+                    app.removeSensor(late["id"], late["engine"])
             state["k"] += 1
             state["updates"] = {}
             trace.append({"ev": "BeginStep", "k": state["k"]})
@@ -386,6 +413,28 @@ def _run_variant(fam, var, src, workdir):
         except Exception as ex:  # noqa: BLE001
             crashed = f"{type(ex).__name__}: {ex}"[:300]
             trace.append({"ev": "Crash", "error": crashed})
+        if crashed is None:
+            # what the run wrote to its OUTPUT database (plain SQL): truth rows by (agent, epoch index of the row's own Julian
+            # date); an imported agent's row is matched to the importer record it is bit-equal to
+            from resonaate.data import getDBConnection
+            jd0 = float(app.clock.julian_date_start)
+            with getDBConnection().engine.connect() as con_:
+                written = con_.exec_driver_sql("SELECT julian_date, agent_id, pos_x_km, pos_y_km, pos_z_km, vel_x_km_p_sec, vel_y_km_p_sec, "
+                                               "vel_z_km_p_sec FROM truth_ephemerides").fetchall()
+            out_rows, n_initial = [], 0
+            for r in written:
+                x = (float(r[0]) - jd0) * 86400.0 / fam["step"]
+                stamp = int(round(x)) if abs(x - round(x)) < 1e-3 else -1          # -1: not an epoch of the run
+                if stamp == 0:
+                    n_initial += 1
+                    continue
+                aid, cur = int(r[1]), tuple(float(v) for v in r[2:])
+                if aid in imported:
+                    m = [k for (a, k), v in rows.items() if a == aid and (v == cur or max(abs(p - q) for p, q in zip(v, cur)) < 1e-9)]
+                    out_rows.append([A(aid), stamp, "import", max(m)] if m else [A(aid), stamp, "unknown", 0])
+                else:
+                    out_rows.append([A(aid), stamp, "realtime", stamp])
+            trace.append({"ev": "Output", "rows": sorted(out_rows), "initial_rows": n_initial})
     except _Abandon:
         pass
     finally:
@@ -521,6 +570,14 @@ def make_families(ctx: Ctx, rng):
     fams.append({"start": "2018-12-01T12:00:00", "step": 60, "nsteps": 3, "nt": 2, "ns": 4, "colocate": [[0, 2]], "src_partition": "split",
                  "variants": [{"name": "colo2eng_exact_o", "mode": "o"}, {"name": "colo2eng_shared_tso", "mode": "tso", "partition": "shared"},
                               {"name": "colo2eng_one_engine_o", "mode": "o", "partition": None}]})
+    # an engine's sensor roster changes after its first import: a sensor joins (Scenario.addSensor) / leaves (removeSensor)
+    # between two steps; the database holds observations by that sensor before and after the change
+    fams.append({"start": "2018-12-01T12:00:00", "step": 60, "nsteps": 4, "nt": 2, "ns": 4, "roster": True,
+                 "variants": [{"name": "roster_add2_tso", "mode": "tso", "roster": ["add", 3, 2]},
+                              {"name": "roster_add3_o_split", "mode": "o", "partition": "split", "roster": ["add", 1, 3]},
+                              {"name": "roster_add3_ts_shared_extras", "mode": "ts", "partition": "shared", "roster": ["add", 3, 3], "extras": 1},
+                              {"name": "roster_remove3_tso", "mode": "tso", "roster": ["remove", 3, 3]},
+                              {"name": "roster_remove2_o_split", "mode": "o", "partition": "split", "roster": ["remove", 0, 2]}]})
     # a target added mid-run by an event while targets are imported: it must be registered with the importer as well
     fams.append({"start": "2018-12-01T12:00:00", "step": 60, "nsteps": 4, "nt": 1, "ns": 2, "add_at": 2,
                  "variants": [{"name": "exact_t_added", "mode": "t"}, {"name": "superset_ts_added", "mode": "ts", "extras": 2},
@@ -573,6 +630,8 @@ def run(ctx: Ctx):
           ("MCImporter_owntargets.cfg", {"ObsReachFilter"}),
           ("MCImporter_wholesecond.cfg", {"ImportFaithful", "NoStaleState"}),
           ("MCImporter_dedupsite.cfg", {"ObsReachFilter"}),
+          ("MCImporter_freezeroster.cfg", {"ObsReachFilter"}),
+          ("MCImporter_stampcached.cfg", {"OutputFaithful"}),
           ("MCImporter_crashdup.cfg", {"RunContinues"}),
           ("MCImporter_keepdup.cfg", {"ObsReachFilter"}),
           ("MCImporter_createtables.cfg", {"ImporterReadOnly"})]
@@ -581,7 +640,7 @@ def run(ctx: Ctx):
     dirs = {name: ctx.sub(name[:-4]) for name, _ in mc}
     # TLC runs and scenario families share one process pool (no threads in this process: forking a process that runs
     # threads can dead-lock the children); the long jobs go first
-    with ProcessPoolExecutor(max_workers=min(ctx.cpus, len(fams) + len(mc), 14)) as ex:
+    with ProcessPoolExecutor(max_workers=min(ctx.cpus, len(fams) + len(mc), 15)) as ex:
         # the deviation runs are small (they stop at the first counterexample): two workers each
         futs = [ex.submit(_run_mc, name, str(dirs[name]), 2 if expect else (max(4, ctx.cpus // 2) if ctx.quick else ctx.cpus), not expect)
                 for name, expect in mc]
@@ -625,7 +684,7 @@ def run(ctx: Ctx):
         m = re.findall(r"/\\ tid = (\d+)", "\n".join(states))
         if m:
             inv.setdefault(int(m[-1]), name)
-    n_raise = n_absent_raise = n_cross = n_cross_runs = n_dup_once = n_minimal = 0
+    n_raise = n_absent_raise = n_cross = n_cross_runs = n_dup_once = n_minimal = n_late = n_left = 0
     for i, (fam, run_) in enumerate(owners):
         var = run_["variant"]
         ctx.case((json.dumps(fam, sort_keys=True), var["name"]), nontrivial=not var["name"].startswith("exact"),
@@ -642,12 +701,17 @@ def run(ctx: Ctx):
         n_cross += len(cross & delivered)
         n_cross_runs += bool(cross & delivered)
         n_dup_once += len({tuple(o) for o in c0["dup"]} & delivered)
+        born_ = dict(map(tuple, c0["born"]))
+        gone_ = dict(map(tuple, c0["gone"]))
+        n_late += len({o for o in delivered if born_.get(o[2], 0) > 1})
+        n_left += len({(k_, t_, s_) for k_, t_, s_ in map(tuple, c0["obs"]) if k_ >= gone_.get(s_, 99)} - delivered)
         n_minimal += c0["schema"] == "minimal"
         pos = reached[i + 1]
         ok = pos == len(traces[i]) + 1 and (i + 1) not in inv
         if not ok:
             ev = traces[i][pos - 1] if pos <= len(traces[i]) else {}
             kind = "absent-epoch" if var.get("drop_epochs") else "gap" if var.get("gaps") else ("thinobs" if var.get("drop_obs") else "complete")
+            kind = ("roster-change+" if var.get("roster") else "") + kind
             kind = ("subsecond-epochs+" if c0["near"] or fam.get("start_ms") else "") + ("colocated-sensors+" if fam.get("colocate") else "") + kind
             kind = ("dup-obs+" if c0["dup"] else "") + ("minimal-schema+" if var.get("drop_tables") else "") + kind
             if len(c0["engines"]) > 1:
@@ -666,6 +730,10 @@ def run(ctx: Ctx):
     ctx.extra["runs_against_an_importer_file_with_only_the_tables_an_importer_reads"] = n_minimal
     if n_raise == 0:
         raise tlc.MachineryError("no derived database made the run raise MissingEphemerisError (gap derivation ineffective)")
+    ctx.extra["observations_delivered_of_a_sensor_that_joined_after_the_first_import"] = n_late
+    ctx.extra["stored_observations_of_a_sensor_after_it_left_that_were_not_delivered"] = n_left
+    if not [v for v in ctx.violations if "colocated" not in v["signature"]] and (n_late == 0 or n_left == 0):
+        raise tlc.MachineryError(f"vacuous: observations of a late-joining sensor delivered = {n_late}, of a removed sensor withheld = {n_left}")
     if not ctx.violations and (n_absent_raise == 0 or n_cross == 0 or n_dup_once == 0 or n_minimal == 0):
         raise tlc.MachineryError(f"vacuous: runs raising at an absent epoch = {n_absent_raise}, cross-engine observations delivered = {n_cross}, "
                                  f"stored-twice observations delivered = {n_dup_once}, minimal-schema runs = {n_minimal}")
